@@ -28,18 +28,21 @@ NC_PREFIX = "not_completed/"
 ALPHABETS = {
     "dir-plain": ("dir", "fasta", ["a", "b.fasta", "c1"]),
     "dir-suffix-of": ("dir", "fasta", ["a", "ba", "a.fasta"]),
-    "dir-sfxtext": ("dir", "fasta", ["fasta_a", "a.b", "x.json"]),
-    "dir-mixed": ("dir", "fasta", ["ab.fasta", "b", "txt1"]),
-    "dir-json": ("dir", "json", ["a", "a.json", "json1"]),
+    "dir-prefix-of": ("dir", "fasta", ["a", "ab", "ab.fasta"]),
+    "dir-sfxtext": ("dir", "fasta", ["fasta_a", "a", "json_a"]),
+    "dir-json": ("dir", "json", ["a", "a.json", "ba"]),
     "dir-short": ("dir", "fa", ["fa", "xfa.fa", "x"]),
+    "dir-dotted": ("dir", "fasta", ["a.b", "a", "x.json"]),
     "sql-plain": ("sql", None, ["a", "ba", "results/a"]),
     "sql-suffix": ("sql", None, ["a.fasta", "a", "results_b"]),
 }
-QUICK_ALPHABETS = ["dir-plain", "dir-suffix-of", "dir-sfxtext", "dir-mixed", "sql-plain"]
+QUICK_ALPHABETS = ["dir-suffix-of", "dir-sfxtext", "sql-plain"]
+QUICK_SHALLOW = ["dir-plain", "dir-prefix-of", "dir-json", "dir-short", "dir-dotted", "sql-suffix"]
+DEEP_ALPHABETS = ("dir-suffix-of", "sql-plain")
 LOG_ID = {"dir": "l.log", "sql": "l"}
 
-DIR_POOL = ["a", "ba", "a.b", "ab.fasta", "fasta_a", "x.json", "txt1", "a.fasta", "b", "c1", "b.fasta", "json_a", "ab",
-            "a_fasta", "x", "seq.1"]
+DIR_POOL = ["a", "ba", "ab", "ab.fasta", "a.fasta", "b", "c1", "b.fasta", "x", "aba", "b_a", "cab.fasta"]
+DIR_POOL_ODD = ["fasta_a", "json_a", "a_fasta", "txt1", "a.b", "x.json", "seq.1", "seq.2"]
 SQL_POOL = ["a", "ba", "a.b", "ab.fasta", "results/a", "results_b", "x.json", "a.fasta", "b", "c1", "results/ba"]
 LOG_POOL = {"dir": ["l.log", "run", "fasta.log", "a.log", "a"], "sql": ["l", "run.log", "a", "logs/run2"]}
 PAYLOADS = ["p0", "p1", "p2", "p3"]
@@ -62,12 +65,15 @@ def with_payloads(ops):
 
 def exhaustive_block(tier):
     depth = 3 if tier == "quick" else 4
-    names = QUICK_ALPHABETS if tier == "quick" else list(ALPHABETS)
+    names = QUICK_ALPHABETS + QUICK_SHALLOW if tier == "quick" else list(ALPHABETS)
     cases = []
     for name in names:
         store, sfx, ids = ALPHABETS[name]
         alpha = op_alphabet(store, ids)
-        d = depth if (tier == "quick" or name in ("dir-plain", "dir-suffix-of", "dir-sfxtext", "sql-plain")) else 3
+        if tier == "quick":
+            d = 3 if name in QUICK_ALPHABETS else 2
+        else:
+            d = depth if name in DEEP_ALPHABETS else 3
         for seq in itertools.product(alpha, repeat=d):
             cases.append(dict(store=store, suffix=sfx, mode="w", ops=with_payloads(seq), obs_every=True,
                               block="exhaustive:" + name))
@@ -80,6 +86,8 @@ def random_case(rng):
     if store == "dir":
         sfx = rng.choice(["fasta", "fasta", "fasta", "fa", "json", "txt"])
         pool = rng.sample(DIR_POOL, rng.randint(2, 5))
+        if rng.random() < 0.25:
+            pool += rng.sample(DIR_POOL_ODD, rng.randint(1, 2))
         if sfx != "fasta":
             pool = [p.replace("fasta", sfx) for p in pool]
     else:
@@ -89,9 +97,9 @@ def random_case(rng):
     for _ in range(n):
         r = rng.random()
         if r < 0.30:
-            ops.append(["w", rng.choice(pool), rng.choice(PAYLOADS)])
+            ops.append(["w", rng.choice(pool), f"p{len(ops)}"])
         elif r < 0.55:
-            ops.append(["nc", rng.choice(pool), rng.choice(PAYLOADS)])
+            ops.append(["nc", rng.choice(pool), f"q{len(ops)}"])
         elif r < 0.62:
             ops.append(["log", rng.choice(LOG_POOL[store]), rng.choice(PAYLOADS)])
         elif r < 0.75:
@@ -104,30 +112,59 @@ def random_case(rng):
                 block="random")
 
 
+def _c(store, sfx, mode, ops):
+    return dict(store=store, suffix=sfx, mode=mode, ops=ops, obs_every=True, block="corpus")
+
+
 CORPUS = [
-    # design-phase candidates (a), (b), (c)
-    dict(store="dir", suffix="fasta", mode="w", ops=[["nc", "ba", "d0"], ["w", "a", "d1"]], obs_every=True, block="corpus"),
-    dict(store="dir", suffix="fasta", mode="w", ops=[["w", "fasta_seq.fasta", "d0"]], obs_every=True, block="corpus"),
-    dict(store="sql", suffix=None, mode="w", ops=[["w", "a", "d0"], ["nc", "a", "d1"], ["open", "r"]], obs_every=True,
-         block="corpus"),
+    # one witness per root cause seen so far (each also has a `_refuted` theorem in Properties/C13.v)
+    _c("dir", "fasta", "w", [["nc", "ba", "d0"], ["w", "a", "d1"]]),                       # C13-1 endswith
+    _c("dir", "fasta", "w", [["w", "fasta_seq.fasta", "d0"]]),                             # C13-2 md5 name
+    _c("dir", "fasta", "w", [["nc", "fasta_a", "d0"]]),                                    # C13-2 stored under another name
+    _c("dir", "fasta", "w", [["nc", "a", "d0"], ["w", "a", "d1"]]),                        # C13-3 md5 of the completed record deleted
+    _c("dir", "fasta", "w", [["nc", "a", "d0"], ["open", "r"], ["drop", "a"]]),            # C13-4 read-only drop
+    _c("dir", "fasta", "w", [["nc", "a", "d0"], ["open", "r"], ["dropall"]]),
+    _c("dir", "fasta", "w", [["w", "a", "d0"], ["w", "a", "d1"]]),                         # C13-5 overwrite ignored
+    _c("dir", "fasta", "w", [["nc", "a", "d0"], ["open", "a"], ["nc", "a", "d1"]]),        # re-run of a failed input in append mode
+    _c("dir", "fasta", "w", [["nc", "a", "d0"], ["nc", "a", "d1"]]),                       # C13-5 duplicate member
+    _c("sql", None, "w", [["w", "a", "d0"], ["nc", "a", "d1"], ["open", "r"]]),            # C13-6
+    _c("sql", None, "w", [["nc", "a", "d0"], ["nc", "a", "d1"]]),                          # C13-6 duplicate member
+    _c("dir", "fasta", "w", [["w", "a", "d0"], ["nc", "a", "d1"]]),                        # no patch: md5 file shared
+    _c("dir", "fasta", "w", [["w", "g.v1", "d0"], ["w", "g.v2", "d1"]]),                   # no patch: dotted ids collide
 ]
 
 
 # ------------------------------------------------------------------ the dictionary oracle (from the property text)
+#
+# The store is two dictionaries keyed by record name: completed C and not completed N, each
+# value (content, checksum of that content).
+#   write(x, d)                C[x] = d; N.pop(x)          ("a completed write retires exactly the same id's
+#                                                            not-completed record")
+#   write_not_completed(x, d)  N[x] = d                     (C[x], if any: the property is silent -> it may stay
+#                                                            intact or be retired, nothing else)
+#   drop_not_completed(x)      N.pop(x)        drop_not_completed()   N.clear()
+#   write_log                  no effect on C, N
+#   close + re-open(mode)      no effect on C, N
+#   append mode                a write / write_not_completed of a name that is completed never changes anything; a name
+#                              that is only in N may be completed by write, and its not-completed record may be replaced
+#                              by write_not_completed (re-run of a failed input) or be refused: the text is silent
+#   read-only mode             nothing ever changes
+# Record name of an identifier: directory stores accept identifiers "with and without format suffixes":
+# the name is the identifier without a trailing ".<store suffix>".  Sqlite: the identifier; write and
+# write_not_completed accept it prefixed by the table name ("results/x").
 
 def md5tag(data):
     return "=" + data
 
 
-def lid_of(store, sfx, raw):
-    """the record an identifier names.  Directory stores: identifiers are used "with and without
-    format suffixes", the record is named by the identifier without its final extension
-    (cogent3.app.data_store.get_unique_id: "strips any format suffixes from name").  Sqlite stores:
-    the identifier itself, optionally prefixed by the table name."""
+def lid_of(store, sfx, raw, kind="w"):
     if store == "sql":
-        return raw[len("results/"):] if raw.startswith("results/") else raw
-    i = raw.rfind(".")
-    return raw[:i] if 0 < i < len(raw) - 1 else raw
+        if kind in ("w", "nc") and raw.startswith("results/"):
+            return raw[len("results/"):]
+        return raw
+    if sfx and raw.endswith("." + sfx) and len(raw) > len(sfx) + 1:
+        return raw[: -len(sfx) - 1]
+    return raw
 
 
 def decode(store, sfx, snap):
@@ -176,23 +213,19 @@ def flat(st):
 
 
 def oracle_step(pre, mode, store, sfx, op):
-    """pre: {C: {lid: (data, md5)}, N: {...}}.  Returns (list of acceptable post states, may_raise)."""
+    """pre: {C: {lid: (data, md5)}, N: {...}}.  Returns the list of acceptable post states."""
     C, N = pre["C"], pre["N"]
     kind = op[0]
     same = [dict(C=dict(C), N=dict(N))]
-    if kind == "open":
-        return same, False
-    if mode == "r":
-        return same, True                      # read-only never mutates (how it refuses is not prescribed)
-    if kind == "log":
-        return same, True                      # log records are not part of the judged observation
+    if kind == "open" or mode == "r" or kind == "log":
+        return same
     if kind == "dropall":
-        return [dict(C=dict(C), N={})], False
-    lid = lid_of(store, sfx, op[1])
+        return [dict(C=dict(C), N={})]
+    lid = lid_of(store, sfx, op[1], kind)
     if kind == "drop":
         n2 = dict(N)
         n2.pop(lid, None)
-        return [dict(C=dict(C), N=n2)], False
+        return [dict(C=dict(C), N=n2)]
     rec = (op[2], md5tag(op[2]))
     if kind == "w":
         c2, n2 = dict(C), dict(N)
@@ -201,38 +234,59 @@ def oracle_step(pre, mode, store, sfx, op):
         done = dict(C=c2, N=n2)
         if mode == "a":
             if lid in C:
-                return same, True              # append never overwrites
+                return same
             if lid in N:
-                return same + [done], True     # completing a not-completed record in append mode: either reading accepted
-        return [done], False
+                return same + [done]
+        return [done]
     if kind == "nc":
         n2 = dict(N)
         n2[lid] = rec
-        if mode == "a" and (lid in C or lid in N):
-            return same, True
+        if mode == "a" and lid in C:
+            return same
+        if mode == "a" and lid in N:
+            # re-running a failed input replaces its not-completed record (directory store, apply_to); refusing is fine too
+            return same + [dict(C=dict(C), N=n2)]
         if lid in C:
             c2 = dict(C)
             c2.pop(lid)
-            # a not-completed write over a completed record: the record stays completed and intact, or becomes not completed
-            return [dict(C=dict(C), N=n2), dict(C=c2, N=n2)], False
-        return [dict(C=dict(C), N=n2)], False
+            return [dict(C=dict(C), N=n2), dict(C=c2, N=n2)]
+        return [dict(C=dict(C), N=n2)]
     raise ValueError(kind)
 
 
-def id_shape(store, sfx, raw):
-    if raw is None:
-        return "-"
-    lid = lid_of(store, sfx, raw)
-    tags = []
-    if store == "dir":
-        if sfx in lid or "json" in lid:
-            tags.append("sfxtext")
-        if "." in lid:
-            tags.append("dotted")
-    else:
-        if raw.startswith("results"):
-            tags.append("tableprefix")
-    return "+".join(tags) or "plain"
+def trigger(pre, mode, store, sfx, op):
+    """coarse classifier of a judged transition: the situation the operation is applied in.  A
+    violation is keyed by it (stable across seeds; one key per root cause seen so far)."""
+    kind = op[0]
+    if kind in ("open", "log"):
+        return kind if kind == "log" else "open-" + op[1]
+    C, N = pre["C"], pre["N"]
+    if kind == "dropall":
+        return ("drop-in-readonly" if mode == "r" else
+                "name-completed-and-not-completed" if (store == "dir" and any(y in C for y in N)) else "drop-all")
+    lid = lid_of(store, sfx, op[1], kind)
+    if store == "dir" and ("." in lid or "/" in lid):
+        return "dotted-id"
+    if mode == "r":
+        return "drop-in-readonly" if kind == "drop" else kind + "-in-readonly"
+    if store == "dir" and lid in C and lid in N:
+        # only reachable through a not-completed write over a completed record (the md5 side file is shared)
+        return "name-completed-and-not-completed"
+    if store == "dir" and kind in ("w", "drop") and any(y != lid and y.endswith(lid) for y in N):
+        return "id-is-suffix-of-not-completed-id"
+    where = "on-" + ("C" if lid in C else "") + ("N" if lid in N else "") if (lid in C or lid in N) else "new"
+    m = "append" if mode == "a" else "overwrite"
+    t = "drop:" + where if kind == "drop" else f"{kind}:{m}:{where}"
+    if store == "dir" and benign(t) and (sfx in lid or "json" in lid):
+        return "suffix-text-in-id"
+    if store == "sql" and benign(t) and op[1].startswith("results"):
+        return "table-prefixed-id"
+    return t
+
+
+def benign(trig):
+    return (trig.endswith(":new") or trig in ("drop:new", "drop:on-N", "drop-all", "log", "w-in-readonly", "nc-in-readonly")
+            or trig.startswith("open-"))
 
 
 def diff_symptoms(exp, got, lid_op):
@@ -244,32 +298,31 @@ def diff_symptoms(exp, got, lid_op):
         e, g = exp[tab], got[tab]
         for lid in sorted(set(e) | set(g)):
             who = "same" if lid == lid_op else "other"
-            rel = ""
-            if who == "other" and lid_op is not None:
-                rel = "(endswith)" if lid.endswith(lid_op) else "(startswith)" if lid.startswith(lid_op) else "(unrelated)"
             gl = g.get(lid, [])
             if lid in e and not gl:
-                out.append((0 if who == "other" else 2, f"{who}{rel}.{tab}.lost"))
+                out.append((0 if who == "other" else 2, f"{who}.{tab}.lost"))
                 continue
             if lid not in e:
-                out.append((1 if who == "other" else 3, f"{who}{rel}.{tab}.phantom"))
+                out.append((1 if who == "other" else 3, f"{who}.{tab}.phantom"))
                 continue
             if len(gl) > 1:
-                out.append((8, f"{who}{rel}.{tab}.duplicate-member"))
+                out.append((8, f"{who}.{tab}.duplicate-member"))
             data, md5 = gl[0]
             if isinstance(data, Exc):
-                out.append((4, f"{who}{rel}.{tab}.unreadable"))
+                out.append((4, f"{who}.{tab}.unreadable"))
             elif data != e[lid][0]:
-                out.append((4 if who == "other" else 5, f"{who}{rel}.{tab}.content"))
+                out.append((4 if who == "other" else 5, f"{who}.{tab}.content"))
             if md5 != e[lid][1]:
-                out.append((6 if who == "other" else 7, f"{who}{rel}.{tab}.md5-" + ("missing" if md5 is None else "wrong")))
+                out.append((6 if who == "other" else 7, f"{who}.{tab}.md5-" + ("missing" if md5 is None else "wrong")))
     out.sort()
     return [s for _, s in out]
 
 
-def judge_case(c, res):
-    """yields (step, key, detail) for every judged transition that violates the dictionary model;
-    also returns the number of judged transitions through the list `stats`"""
+def judge_case(c, res, first_only=True):
+    """returns (findings, judged): findings = [(step, key, detail)] for judged transitions that violate the
+    dictionary model.  Judging is per transition: observed consistent dictionary state --op--> observed
+    state of the live instance and of a freshly re-opened read-only instance.  After the first violation
+    of a history the rest of it is not judged (the state is then no longer one the oracle vouches for)."""
     store, sfx = c["store"], c["suffix"]
     mode = c["mode"]
     pre = dict(C={}, N={})      # a new store is empty
@@ -281,14 +334,16 @@ def judge_case(c, res):
         if op[0] == "open" and not isinstance(ret, Exc):
             new_mode = op[1]
         if live is None and fresh is None:      # not observed at this step
+            if pre is not None and not benign(trigger(pre, mode, store, sfx, op)):
+                break       # an unobserved step in a situation with known trouble: later symptoms could not be attributed
             pre = None if pre is None else _advance_unobserved(pre, mode, store, sfx, op)
             mode = new_mode
             continue
         gl, gf = decode(store, sfx, live), decode(store, sfx, fresh)
         if pre is not None:
             judged += 1
-            exps, may_raise = oracle_step(pre, mode, store, sfx, op)
-            lid_op = lid_of(store, sfx, op[1]) if op[0] in ("w", "nc", "drop") else None
+            exps = oracle_step(pre, mode, store, sfx, op)
+            lid_op = lid_of(store, sfx, op[1], op[0]) if op[0] in ("w", "nc", "drop") else None
             best = None
             for e in exps:
                 el = {t: {l: [v] for l, v in e[t].items()} for t in ("C", "N")}
@@ -302,20 +357,17 @@ def judge_case(c, res):
                 if best is None or len(sy) < len(best):
                     best = sy
             symptoms = list(best)
-            if not symptoms and isinstance(ret, Exc) and not may_raise:
-                symptoms = [f"raised:{ret.code}"]
             if symptoms:
-                inC, inN = lid_op in pre["C"], lid_op in pre["N"]
-                prem = "-" if lid_op is None else ("onCN" if inC and inN else "onC" if inC else "onN" if inN else "new")
-                opk = op[0] if op[0] != "open" else "open-" + op[1]
-                modek = {"r": "readonly", "a": "append", "w": "overwrite"}[mode]
-                # the mode is part of the kind only where the property speaks about it
-                prim = symptoms[0]
-                mk = modek if (mode == "r" or (mode == "a" and "content" in prim)) else "rw"
-                key = f"{store}:{opk}:{mk}:{id_shape(store, sfx, op[1] if len(op) > 1 and op[0] != 'open' else None)}:{prem}:{prim}"
+                trig = trigger(pre, mode, store, sfx, op)
+                key = f"{store}:{trig}"
+                if benign(trig):
+                    # no situation known to matter: keep the symptom in the key, it is a new kind
+                    key += ":" + symptoms[0].split(":", 1)[1]
                 findings.append((k, key, dict(step=k, op=op, mode=mode, pre=_show(pre), acceptable=[_show(e) for e in exps],
                                               observed_live=_showl(gl), observed_reopened=_showl(gf), ret=jsonable(ret),
                                               symptoms=symptoms)))
+                if first_only:
+                    break
         # resynchronise on what the store now holds
         if consistent(gl) and consistent(gf) and gl == gf:
             pre = flat(gf)
@@ -326,7 +378,7 @@ def judge_case(c, res):
 
 
 def _advance_unobserved(pre, mode, store, sfx, op):
-    exps, _ = oracle_step(pre, mode, store, sfx, op)
+    exps = oracle_step(pre, mode, store, sfx, op)
     return exps[0] if len(exps) == 1 else None
 
 
@@ -338,6 +390,50 @@ def _showl(st):
     if st is None:
         return None
     return {t: {k: [jsonable(list(x)) for x in v] for k, v in st[t].items()} for t in ("C", "N")}
+
+
+# ------------------------------------------------------------------ which variant of the code is this tree?
+# Model/DataStore.v carries one flag per proposed patch (notes/proposed_fixes/C13-<n>.diff).  The flags are
+# read off the implementation's behaviour on one witness history each; the model with these flags must then
+# agree with the implementation on EVERY case of the run (so a wrong guess shows up as a broken correspondence).
+
+FLAGS = ["exact", "sfx", "dropfirst", "rodrop", "presence", "sqlupd"]
+PROBES = {
+    "exact": dict(store="dir", suffix="fasta", mode="w", ops=[["nc", "ba", "d0"], ["w", "a", "d1"]]),
+    "sfx": dict(store="dir", suffix="fasta", mode="w", ops=[["w", "fasta_seq.fasta", "d0"]]),
+    "dropfirst": dict(store="dir", suffix="fasta", mode="w", ops=[["nc", "a", "d0"], ["w", "a", "d1"]]),
+    "rodrop": dict(store="dir", suffix="fasta", mode="w", ops=[["nc", "a", "d0"], ["open", "r"], ["drop", "a"]]),
+    "presence": dict(store="dir", suffix="fasta", mode="w", ops=[["w", "a", "d0"], ["w", "a", "d1"]]),
+    "sqlupd": dict(store="sql", suffix=None, mode="w", ops=[["w", "a", "d0"], ["nc", "a", "d1"]]),
+}
+
+
+def probe_variant():
+    names = list(PROBES)
+    cases = [dict(PROBES[n], obs_every=True, block="probe") for n in names]
+    res = [from_jsonable(r) for r in core.run_impl_lines("c13_impl.py", cases)]
+    flags = {}
+    for n, c, r in zip(names, cases, res):
+        if isinstance(r, dict) and "exc" in r:
+            raise core.CheckError(f"variant probe {n} failed in the runner: {r}")
+        last = decode(c["store"], c["suffix"], r[-1][2])
+        if n == "exact":
+            flags[n] = last is not None and "ba" in last["N"]
+        elif n == "sfx":
+            flags[n] = last is not None and last["C"].get("fasta_seq", [(None, None)])[0][1] == "=d0"
+        elif n == "dropfirst":
+            flags[n] = last is not None and last["C"].get("a", [(None, None)])[0][1] == "=d1"
+        elif n == "rodrop":
+            flags[n] = isinstance(r[-1][0], Exc) and last is not None and "a" in last["N"]
+        elif n == "presence":
+            flags[n] = last is not None and last["C"].get("a", [(None, None)])[0][0] == "d1"
+        elif n == "sqlupd":
+            flags[n] = last is not None and "a" in last["N"]
+    return flags
+
+
+def coq_variant(flags):
+    return "(mkV " + " ".join("true" if flags[n] else "false" for n in FLAGS) + ")"
 
 
 # ------------------------------------------------------------------ rendering for Coq / running the model
@@ -359,16 +455,20 @@ def coq_op(o):
     raise ValueError(k)
 
 
-def coq_case(c):
+def coq_case(c, flags):
     kind = "true" if c["store"] == "dir" else "false"
     sfx = zstr(c["suffix"] or "")
     mode = {"r": "MR", "w": "MW", "a": "MA"}[c["mode"]]
-    return f"({kind}, {sfx}, {mode}, {'true' if c.get('obs_every', True) else 'false'}, [" + ";".join(coq_op(o) for o in c["ops"]) + "])"
+    return (f"({coq_variant(flags)}, {kind}, {sfx}, {mode}, {'true' if c.get('obs_every', True) else 'false'}, ["
+            + ";".join(coq_op(o) for o in c["ops"]) + "])")
 
 
-def run_model(cases, shard=250):
+CASE_TYPE = "variant * bool * list Z * mode * bool * list op"
+
+
+def run_model(cases, flags, shard=400):
     return core.coq_eval(PROP, ["Model.DataStore", "Model.SqlStore", "Model.DataStoreRun"], "run_case",
-                         [coq_case(c) for c in cases], "bool * list Z * mode * bool * list op", shard=shard)
+                         [coq_case(c, flags) for c in cases], CASE_TYPE, shard=shard)
 
 
 def norm_impl(res):
@@ -383,28 +483,48 @@ def norm_impl(res):
 
 def build_cases(tier, rng, widen=1):
     cases = list(CORPUS) + exhaustive_block(tier)
-    nrand = (600 if tier == "quick" else 12000) * widen
+    nrand = (500 if tier == "quick" else 5000) * widen
     cases += [random_case(rng) for _ in range(nrand)]
     return cases
+
+
+TRUSTED = [
+    "md5 digests are treated as an injective tag of the payload (the model stores the payload where the code stores its hex digest)",
+    "file system (directory listing, unlink, rmdir, mkdir) and sqlite3 statement execution are re-modelled in "
+    "Model/DataStore.v / Model/SqlStore.v as finite maps / row lists, not verified",
+    "pathlib name/stem/suffix, str.replace/endswith/in, and the regular expressions are re-modelled on code-point lists "
+    "(identifiers: no '/', no newline, no leading '.', lower-case ASCII; suffix: [a-z0-9]+, not a compression suffix)",
+    "directory listing order is pinned to name order in the implementation runner (Path.glob sorted)",
+    "the directory refinement theorems are about the model variant `repaired` (all six proposed patches "
+    "notes/proposed_fixes/C13-1..6.diff applied), the sqlite one about every variant with C13-6; which variant the tree under "
+    "test is, is measured by this run from six witness histories (coverage.variant) and the model with exactly these flags "
+    "must agree with the implementation on every case; for a tree that is not `repaired` the `_refuted` theorems apply",
+]
+
+PARTIAL = [
+    "the directory-store refinement theorems are about the model variant `repaired` (patches C13-1..5 applied); for the code "
+    "as found only the `_refuted` theorems (one per missing patch) and the correspondence apply",
+    "directory store, write_not_completed (overwrite mode) of a name that is currently completed: the md5 side file is shared by "
+    "the two records (no patch proposed; excluded by hypothesis `no_nc_over_completed`, `nc_over_completed_refuted` without it)",
+    "directory store identifiers with a dot inside the record name (g.v1): normalised by Path.stem, excluded by `wf_id` "
+    "(`dotted_ids_refuted`)",
+    "write_log / logs listing / validate(): compared model-vs-implementation only (not part of the dictionary statement)",
+    "compressed members (.gz/.bz2/.zip), limit=, in-memory sqlite stores, the sqlite lock: not modelled",
+]
 
 
 def run(tier: str, seed: int) -> int:
     rep = core.Report(PROP, tier, seed)
     rng = random.Random(seed * 7919 + 13)
     pr = core.proof_stage(PROP, COQ_TARGETS)
-    core.proof_coverage(rep, pr, "make theories/Properties/C13.vo && coqc gen/assum_C13.v (Print Assumptions)", [
-        "md5 digests are treated as an injective tag of the payload (the model stores the payload where the code stores its hex digest)",
-        "file system (directory listing, unlink, rmdir, mkdir) and sqlite3 statement execution are re-modelled in "
-        "Model/DataStore.v / Model/SqlStore.v as finite maps / row lists, not verified",
-        "pathlib name/stem/suffix, str.replace/endswith/in, and the two regular expressions are re-modelled on code-point lists "
-        "(identifiers: no '/', no newline, no leading '.', lower-case ASCII; suffix: [a-z0-9]+, not a compression suffix)",
-    ])
+    core.proof_coverage(rep, pr, "make theories/Properties/C13.vo && coqc gen/assum_C13.v (Print Assumptions)", TRUSTED)
     proof_broken = bool(pr["problems"])
+    flags = probe_variant()
     cases = build_cases(tier, rng, widen=4 if proof_broken else 1)
     impl = [from_jsonable(r) for r in core.run_impl_sharded("c13_impl.py", cases, nshards=core.NPROC)]
     model = None
     try:
-        model = run_model(cases)
+        model = run_model(cases, flags)
     except core.CheckError as e:
         if not proof_broken:
             raise
@@ -437,23 +557,34 @@ def run(tier: str, seed: int) -> int:
                 broken="store state after this operation differs from the dictionary model"))
         if mr is not None and norm_impl(ir) != mr:
             ndis += 1
-            if not findings:
-                kk = next((k for k, (a, b) in enumerate(zip(norm_impl(ir), mr)) if a != b), 0)
-                disagreements.append(dict(key=f"{c['store']}:{c['ops'][kk][0]}", case=dict(c, ops=c["ops"][: kk + 1]),
-                                          observed_impl=jsonable(norm_impl(ir)[kk]), model_output=jsonable(mr[kk])))
+            kk = next((k for k, (a, b) in enumerate(zip(norm_impl(ir), mr)) if a != b), 0)
+            disagreements.append(dict(key=f"{c['store']}:{c['ops'][kk][0]}", case=dict(c, ops=c["ops"][: kk + 1]),
+                                      observed_impl=jsonable(norm_impl(ir)[kk]), model_output=jsonable(mr[kk]),
+                                      variant=flags))
+    if disagreements:
+        # the model (with the measured flags) no longer describes the code: that alone fails the check,
+        # whether or not the oracle also found a concrete violation
+        d = dict(disagreements[0])
+        d["broken"] = ("correspondence Model.DataStoreRun.run_case vs cogent3.app.data_store / sqlite_data_store: model "
+                       f"variant {flags} and implementation differ on this history")
+        d["n_disagreements"] = ndis
+        rep.violation("correspondence:" + d["key"], d, no_input=not nvio)
+    sample_i = next((i for i, c in enumerate(cases) if c["block"].startswith("exhaustive")), 0)
     rep.coverage.update(
         evaluations=njudged, distinct_nontrivial=len(nontrivial),
         rule="one evaluation = one judged transition (observed consistent dictionary state --op--> observed live and re-opened "
-             "state); non-trivial case = history of >= 2 operations containing at least one record write; exhaustive block: "
-             "every operation sequence of the stated depth over 3 identifiers x {write, write_not_completed, drop} + drop-all + "
-             "write_log + re-open r/w/a",
-        samples=[dict(case=cases[3], impl=jsonable(impl[3]))] if len(cases) > 3 else [],
+             "state; after the first violation of a history the rest of it is not judged); non-trivial case = history of >= 2 "
+             "operations containing at least one record write; exhaustive block: every operation sequence of the stated depth "
+             "over 3 identifiers x {write, write_not_completed, drop} + drop-all + write_log + re-open r/w/a",
+        samples=[dict(case=cases[sample_i], impl=jsonable(impl[sample_i]))],
         input_distribution=dict(cases=len(cases), ops=dist, blocks={b: sum(1 for c in cases if c["block"] == b)
                                                                     for b in sorted({c["block"] for c in cases})}),
         model_impl_disagreements=ndis, spec_violations=nvio, violation_keys=keys_seen,
+        variant={"flags": flags, "is_repaired": all(flags.values()), "is_pinned": not any(flags.values())},
+        partial=PARTIAL,
         exhaustive=True,
     )
-    core.conclude(rep, pr, f"{len(cases)} histories / {njudged} transitions against the dictionary oracle", disagreements[:5],
+    core.conclude(rep, pr, f"{len(cases)} histories / {njudged} transitions against the dictionary oracle", [],
                   "Model.DataStoreRun.run_case vs cogent3.app.data_store / sqlite_data_store", tier, PROP)
     return rep.finish("proof")
 
@@ -470,7 +601,7 @@ def replay(path: str) -> int:
         print("impl  :", ir)
         print("REPRODUCED (runner raised)")
         return 1
-    findings, _ = judge_case(c, ir)
+    findings, _ = judge_case(c, ir, first_only=False)
     for op, r in zip(c["ops"], ir):
         print("impl  :", op, "->", json.dumps(jsonable(r)))
     for (k, key, detail) in findings:
@@ -478,11 +609,16 @@ def replay(path: str) -> int:
         print("        acceptable:", json.dumps(detail["acceptable"]))
         print("        live      :", json.dumps(detail["observed_live"]))
         print("        reopened  :", json.dumps(detail["observed_reopened"]))
-    want = d.get("key")
-    bad = any(key == want for (_, key, _) in findings) if want and not want.startswith(("correspondence", "proof", "coqchk")) else bool(findings)
-    if d.get("key", "").startswith("correspondence"):
-        mr = run_model([c])[0]
+    want = d.get("key", "")
+    if want.startswith("correspondence"):
+        flags = probe_variant()
+        mr = run_model([c], flags)[0]
+        print("variant:", flags)
         print("model :", json.dumps(jsonable(mr)))
         bad = norm_impl(ir) != mr
+    elif want and not want.startswith(("proof", "coqchk", "harness")):
+        bad = any(key == want for (_, key, _) in findings)
+    else:
+        bad = bool(findings)
     print("REPRODUCED" if bad else "not reproduced")
     return 1 if bad else 0
